@@ -48,6 +48,14 @@ def bounds(tier, seed):
 
 
 def cases(tier, seed):
+    if tier == "thorough":
+        # a finer lattice (eighths) with longer extents
+        for start in (-3.0, 0.125, 1000.0):
+            for ek in range(0, 57):
+                for sk in range(1, 49):
+                    for adjust in ("spacing", "region"):
+                        for pixel in (False, True):
+                            yield dict(kind="line_spacing", sc=1.0, start=start, ext=ek / 8, sp=sk / 8, adjust=adjust, pixel=pixel)
     for sc in pick_frames(SCALES, tier, seed):
         for start in STARTS:
             for ek in range(0, 21):
